@@ -84,8 +84,11 @@ def d1_d2_d3(ck):
                 seen_lookup = True
             elif any(x == ("param", names.get("nodes_searched")) or is_call(x, S + "CancellationToken::is_cancelled") for x in walk(c)):
                 continue  # the interrupt poll precedes everything
-            elif c[0] == "bin" and c[1] == "Eq" and 0 in (const_value(c[2]), const_value(c[3])) and any(y[0] == "bin" and y[1] == "Rem" for y in (c[2], c[3])):
+            elif c[0] == "bin" and c[1] in ("Eq", "Ne") and 0 in (const_value(c[2]), const_value(c[3])) and any(y[0] == "bin" and y[1] == "Rem" for y in (c[2], c[3])):
                 continue
+            elif c[0] == "discr" and is_call(c[1], "Try>::branch") and tk in (0, ("else", (1,))) and \
+                    any("SearchInterrupt" in b.local_ty(x[1]) for x in walk(c[1]) if x[0] in ("var", "local") and isinstance(x[1], int) and x[1] < len(b.locals)):
+                continue  # `poll(..)?` of the interrupt check: the Continue edge
             else:
                 extra.append((show(c)[:100], tk))
         ck.req(seen_depth, "D2.not_at_root", "analyze_recursive", b.where(s["line"]), "the draw shortcut is not restricted to current_depth > 0: the root itself could be answered as a draw without being searched")
